@@ -53,6 +53,26 @@ theorem mem_items_iff (s : PState K V) (hi : PInv s) (a b : Option K) (p : K × 
   · intro h
     exact ⟨_, rfl, List.mem_filter.2 h⟩
 
+/-- the yielded list is strictly ascending by key (hence every entry once), for every pair of endpoints -/
+theorem items_sorted (s : PState K V) (hi : PInv s) (a b : Option K) :
+    ∃ l, items s a b = .ok l ∧ SMap.Sorted l :=
+  ⟨_, items_spec s hi a b, List.Pairwise.filter _ (abs_sorted s hi)⟩
+
+/-- paging: cutting `[a, b)` at any key `m` into `[a, m)` and `[m, b)` loses and duplicates nothing -/
+theorem items_split (s : PState K V) (hi : PInv s) (a b : Option K) (m : K) :
+    ∃ l r w, items s a (some m) = .ok l ∧ items s (some m) b = .ok r ∧ items s a b = .ok w ∧
+      ∀ p, p ∈ w ↔ (p ∈ l ∧ inRange none b p.1 = true) ∨ (p ∈ r ∧ inRange a none p.1 = true) := by
+  refine ⟨_, _, _, items_spec s hi _ _, items_spec s hi _ _, items_spec s hi _ _, ?_⟩
+  intro p
+  simp only [List.mem_filter, inRange, Bool.and_eq_true, decide_eq_true_eq, Bool.true_and, Bool.and_true]
+  constructor
+  · rintro ⟨hm, h1, h2⟩
+    by_cases h : ord p.1 < ord m
+    · exact Or.inl ⟨⟨hm, h1, h⟩, h2⟩
+    · exact Or.inr ⟨⟨hm, by omega, h2⟩, h1⟩
+  · rintro (⟨⟨hm, h1, _⟩, h2⟩ | ⟨⟨hm, _, h2⟩, h1⟩)
+    · exact ⟨hm, h1, h2⟩
+    · exact ⟨hm, h1, h2⟩
 /-- the chain walk visits exactly the leaves in tree order -/
 theorem chain_is_leaves (s : PState K V) (hi : PInv s) : chain s = .ok (leaves s.height s.root) := chain_spec s hi
 
